@@ -256,6 +256,7 @@ func (StoreLinScenario) Execute(sim *sched.Sim, ci interface{}, prop string, rac
 		sim.Optional[p] = true
 	}
 	sim.RoleOf = roleOf
+	sim.Canon = newCanon().canon
 	var st store.Store
 	var db *badger.DB
 	var dir string
